@@ -80,6 +80,8 @@ pub struct OBook {
     pub indent: bool,
     /// styles of other families reuse the names of the table styles (names are unique per family only) and follow them
     pub style_name_collision: bool,
+    /// a table:dde-links block after the sheets: its cached-values table has no name and is not a sheet
+    pub dde_links: bool,
 }
 
 fn spaces_xml(n: usize, mode: SpaceMode, at_start: bool) -> String {
@@ -195,6 +197,9 @@ pub fn content_xml(b: &OBook) -> String {
             }
         }
         o.push_str("</table:named-expressions>");
+    }
+    if b.dde_links {
+        o.push_str("<table:dde-links><table:dde-link><office:dde-source office:dde-application=\"soffice\" office:dde-topic=\"/tmp/x.ods\" office:dde-item=\"Sheet1.A1\"/><table:table><table:table-column/><table:table-row><table:table-cell office:value-type=\"float\" office:value=\"7\"/></table:table-row></table:table></table:dde-link></table:dde-links>");
     }
     o.push_str("</office:spreadsheet></office:body></office:document-content>");
     o
